@@ -29,6 +29,9 @@ def mk_id(code, scheme):
         return "" if code == 2 else ("n%d" % code if code >= 26 else "abc\u00e9efghijklmnopqrstuvwxyz"[code])
     if scheme == "dstr":
         return str(code)
+    if scheme == "ustr":      # strings containing the separator of temporal_dag's occurrence names
+        names = ["z_0", "a", "a_1", "b", "b_2", "c_x", "_d", "e_", "a_1_2", "f__g"]
+        return names[code] if code < len(names) else "u_%d" % code
     if scheme == "str":
         return "n%d" % code if code >= 26 else "abc\u00e9efghijklmnopqrstuvwxyz"[code]
     # mixed hashables; Python-equal ids must stay distinct per code
@@ -714,6 +717,16 @@ class Impl:
             edges.append(self.occ(x) + self.occ(y))
         nodes = []
         for n in DG.nodes():
+            if self.ids == "ustr":
+                # the bare root may read like an occurrence name: it is the bare root when it equals the root id
+                # (always added by DG.add_node(u)); it is also an occurrence when it has DAG edges
+                if n == root:
+                    nodes.append([self.C(n), None])
+                    if DG.degree(n) > 0:
+                        nodes.append(self.occ(n))
+                else:
+                    nodes.append(self.occ(n))
+                continue
             nodes.append([self.C(n), None] if n == root and not (isinstance(n, str) and "_" in n) else self.occ(n))
         acyc = 1 if nx.is_directed_acyclic_graph(DG) else 0
         return {"edges": sorted(edges), "src": sorted(self.occ(x) for x in src), "tgt": sorted(self.occ(x) for x in tgt),
